@@ -134,6 +134,12 @@ def binding_doc_stream(ctx, n, off=0, collect=True):
                     break
             if not bad:
                 bad = values_insert_case(rng, d)
+            if not bad:
+                bad = undocumented_sibling_case(rng, d)
+            if not bad and case % 3 == 0:
+                bad = long_doc_case(rng, d)
+                if collect:
+                    ctx.count("long_doc_cases")
             if bad:
                 first = first or dict(bad)
                 if collect:
@@ -143,6 +149,120 @@ def binding_doc_stream(ctx, n, off=0, collect=True):
         finally:
             shutil.rmtree(d, ignore_errors=True)
     return first
+
+
+def long_doc_case(rng, d):
+    """LONG documentation (several thousand characters) dense with characters that need escaping: whatever way the generator
+    spells the literal (one literal, or adjacent literals `"…" "…"`), the C++ compiler must decode it to the extracted text"""
+    import subprocess
+    from gtwrap.pybind_wrapper import PybindWrapper
+    from gtwrap.xml_parser.xml_parser import XMLDocParser
+    import streams
+    special = ['"', "\\", "\n", "?", "\t", "'", "\u00e9", "\x7f", "%", "\x01", "??/", "\u2028"]
+    parts = ["Doc"]
+    total = rng.choice([2100, 4200, 6300, 3000])
+    while sum(len(x) for x in parts) < total:
+        r = rng.random()
+        if r < 0.5:
+            parts.append(rng.choice(["x", "word ", "value", "1", "e"]) * rng.randint(1, 40))
+        else:
+            parts.append("".join(rng.choice(special) for _ in range(rng.randint(1, 12))))
+    # dense escapes around the multiples of 1024 of the raw text
+    text = "".join(parts)
+    for b in range(1024, len(text), 1024):
+        text = text[:b - 8] + "".join(rng.choice(special[:6]) for _ in range(16)) + text[b + 8:]
+    text = text.strip() + "."
+    sub = os.path.join(d, "longdoc")
+    os.makedirs(sub, exist_ok=True)
+    esc = text.replace("&", "&amp;").replace("<", "&lt;").replace(">", "&gt;")
+    esc = "".join(c if (c in "\n\t" or ord(c) >= 0x20) else "&#%d;" % ord(c) for c in esc)
+    if any(ord(c) < 0x20 and c not in "\n\t" for c in text):
+        text = "".join(c for c in text if c in "\n\t" or ord(c) >= 0x20)       # XML 1.0 has no other control characters
+        esc = text.replace("&", "&amp;").replace("<", "&lt;").replace(">", "&gt;")
+    open(os.path.join(sub, "index.xml"), "w", encoding="utf-8").write(
+        '<doxygenindex><compound refid="classL" kind="class"><name>L</name></compound></doxygenindex>')
+    open(os.path.join(sub, "classL.xml"), "w", encoding="utf-8").write(
+        '<doxygen><compounddef id="classL" kind="class"><compoundname>L</compoundname><sectiondef kind="public-func">'
+        '<memberdef kind="function" id="m1"><type>double</type><name>f</name><argsstring>(int x)</argsstring>'
+        '<param><type>int</type><declname>x</declname></param><briefdescription><para>%s</para></briefdescription>'
+        '<detaileddescription></detaileddescription></memberdef></sectiondef></compounddef></doxygen>' % esc)
+    import io, contextlib
+    with contextlib.redirect_stdout(io.StringIO()):
+        want = XMLDocParser().extract_docstring(sub, "L", "f", ["x"])
+    try:
+        out = PybindWrapper(module_name="m", top_module_namespaces=[''], use_boost_serialization=False, ignore_classes=[],
+                            module_template=streams.TPL_MIN, xml_source=sub).wrap_file("class L { L(); double f(int x) const; };", module_name="m")
+    except Exception as ex:  # noqa
+        return dict(what="generation fails for a long documentation text (%s)" % type(ex).__name__, documentation=text[:300])
+    m = re.search(r'self->f\(x\);\}, py::arg\("x"\), (.*)\)\s*;?\s*$', out, re.M | re.S)
+    line = next((l for l in out.split("\n") if "self->f(" in l), "")
+    m = re.search(r'py::arg\("x"\),\s*(.*)\)\s*;?\s*$', line)
+    if not m:
+        return dict(what="the binding of L::f carries no docstring literal for a long documentation text", binding=line[:300])
+    src = os.path.join(sub, "lit.cpp")
+    with open(src, "w", encoding="utf-8") as f:
+        f.write('#include <cstdio>\nstatic const char s[] = %s;\nint main() { for (unsigned long k = 0; k + 1 < sizeof s; k++) std::printf("%%02x", (unsigned)(unsigned char)s[k]); return 0; }\n' % m.group(1))
+    r = subprocess.run(["g++", "-std=c++17", "-finput-charset=UTF-8", "-fexec-charset=UTF-8", "-w", "-o", os.path.join(sub, "lit"), src], capture_output=True, text=True)
+    if r.returncode != 0:
+        return dict(what="the docstring literal emitted for a long documentation text is not valid C++", documentation_length=len(want),
+                    compiler=r.stderr[-300:], literal_head=m.group(1)[:200])
+    got = bytes.fromhex(subprocess.run([os.path.join(sub, "lit")], capture_output=True, text=True).stdout)
+    if got != want.encode("utf-8"):
+        gw = want.encode("utf-8")
+        k = next((i for i in range(min(len(got), len(gw))) if got[i] != gw[i]), min(len(got), len(gw)))
+        return dict(what="the docstring literal emitted for a long documentation text (%d characters) decodes to another text" % len(want),
+                    first_difference_at_byte=k, expected=repr(gw[max(0, k - 20):k + 20]), got=repr(got[max(0, k - 20):k + 20]))
+    return None
+
+
+def undocumented_sibling_case(rng, d):
+    """a documented class followed by classes whose documentation cannot be found (not in the index, class file missing,
+    class file malformed) and which have members of the same names and parameter names: their bindings carry NO
+    documentation, the documented class keeps its own"""
+    from gtwrap.pybind_wrapper import PybindWrapper
+    import io, contextlib
+    import streams
+    names = rng.sample(["scale", "update", "reset", "value", "norm"], rng.randint(2, 4))
+    body = " ".join("double %s(double factor) const;" % nm for nm in names)
+    kinds = rng.sample(["not-in-index", "file-missing", "malformed"], rng.randint(1, 3))
+    classes = ["Doc"] + ["Plain%d" % i for i in range(len(kinds))]
+    order = list(classes)
+    if rng.random() < 0.3:
+        order = order[1:] + order[:1]          # the undocumented ones first
+    text = " ".join("class %s { %s(); %s };" % (c, c, body) for c in order)
+    sub = os.path.join(d, "siblings")
+    os.makedirs(sub, exist_ok=True)
+    index = '<compound refid="classDoc" kind="class"><name>Doc</name></compound>'
+    for i, k in enumerate(kinds):
+        if k != "not-in-index":
+            index += '<compound refid="classPlain%d" kind="class"><name>Plain%d</name></compound>' % (i, i)
+        if k == "malformed":
+            open(os.path.join(sub, "classPlain%d.xml" % i), "w").write("<doxygen><compounddef>")
+    open(os.path.join(sub, "index.xml"), "w").write("<doxygenindex>" + index + "</doxygenindex>")
+    open(os.path.join(sub, "classDoc.xml"), "w").write(
+        '<doxygen><compounddef id="classDoc" kind="class"><compoundname>Doc</compoundname><sectiondef kind="public-func">' + "".join(
+            '<memberdef kind="function" id="m%d"><type>double</type><name>%s</name><argsstring>(double factor)</argsstring>'
+            '<param><type>double</type><declname>factor</declname></param><briefdescription><para>DOCOF[%s]END</para>'
+            '</briefdescription><detaileddescription></detaileddescription></memberdef>' % (i, nm, nm) for i, nm in enumerate(names))
+        + '</sectiondef></compounddef></doxygen>')
+    try:
+        with contextlib.redirect_stdout(io.StringIO()):
+            out = PybindWrapper(module_name="m", top_module_namespaces=[''], use_boost_serialization=False, ignore_classes=[],
+                                module_template=streams.TPL_MIN, xml_source=sub).wrap_file(text, module_name="m")
+    except Exception as ex:  # noqa
+        return dict(what="generation fails when the documentation of a class cannot be found (%s): %s" % (", ".join(kinds), type(ex).__name__), input=text)
+    for l in out.splitlines():
+        cm = re.search(r'\[\]\((\w+)\* self', l)
+        if not cm:
+            continue
+        docs = re.findall(r"DOCOF\[(.*?)\]END", l)
+        nm = re.search(r'self->(\w+)\(', l)
+        if cm.group(1) == "Doc" and nm and docs != [nm.group(1)]:
+            return dict(what="the binding that calls Doc::%s carries %s instead of its documentation" % (nm.group(1), docs or "no documentation"), input=text, binding=l.strip()[:300])
+        if cm.group(1) != "Doc" and docs:
+            return dict(what="the binding of %s::%s — a class whose documentation cannot be found (%s) — carries the documentation of Doc::%s"
+                        % (cm.group(1), nm.group(1) if nm else "?", ", ".join(kinds), docs[0]), input=text, binding=l.strip()[:300])
+    return None
 
 
 def values_insert_case(rng, d):
